@@ -1,4 +1,12 @@
-(* C08 — key import, export and address derivation are consistent (glue level; native cryptography is an oracle). *)
+(* C08 — key import, export and address derivation are consistent.
+
+   Models: Client/KeyStore.v (+ Client/KeyGlue.v).  Native cryptography is an oracle [P : prims]; the theorems
+   hold for EVERY oracle satisfying [store_laws P] (libsodium's secret key determines its seed and public key;
+   secretbox_open inverts secretbox and adds 16 bytes; blake2b returns the requested number of bytes; public
+   points have the curve's length; base58check laws) resp. "sha256 returns 32 bytes" and "word list indices are
+   below 2048".  That the derived public key equals an independent implementation's is a property of the native
+   libraries and is only TESTED (harness oracle (B)); in this sense C08 is proved PARTIALLY: the glue for all
+   keys, passphrases, salts and word sequences, not the cryptography. *)
 From Coq Require Import String.
 From Coq Require Import List NArith Bool.
 From Coq.Strings Require Import Byte.
@@ -12,3 +20,85 @@ Theorem C08_pkh_is_blake2b160 : forall P, store_laws P -> forall k c, ktag k = c
   public_key_hash P k = Ok (str_of e) /\ length e = 36 /\ starts_with (r_txt (pkh_row c)) e = true.
 Proof. exact public_key_hash_formula. Qed.
 Print Assumptions C08_pkh_is_blake2b160.
+
+(* HASH_KEY on the key's public key text pushes the key's public key hash. *)
+Theorem C08_hash_key_agrees : forall P, store_laws P -> forall c pk sec pks, length pk = pklen c ->
+  public_key P (mkkey pk sec (curve_tag c)) = Ok pks ->
+  hash_key P pks = public_key_hash P (mkkey pk sec (curve_tag c)).
+Proof. exact hash_key_agrees. Qed.
+Print Assumptions C08_hash_key_agrees.
+
+(* Exporting the public key and importing it yields the public half of the key. *)
+Theorem C08_public_key_export_import : forall P, store_laws P -> forall c pk sec pass, length pk = pklen c ->
+  exists pks, public_key P (mkkey pk sec (curve_tag c)) = Ok pks /\
+              from_encoded_key P (PS pks) pass = Ok (mkkey pk None (curve_tag c)).
+Proof. exact public_export_import. Qed.
+Print Assumptions C08_public_key_export_import.
+
+(* Plain export (no passphrase, or an empty str / bytes one), for all four curves, with ed25519_seed true or false
+   (Ed25519: the 32-byte seed resp. the 64-byte secret key is exported), then import with any passphrase argument:
+   the same key (public point, secret exponent, curve). [se] is the exponent / seed given to from_secret_exponent:
+   32 bytes, or for Ed25519 also a 64-byte libsodium secret key that is the expansion of a seed. *)
+Theorem C08_export_import_plain : forall P, store_laws P -> forall c se pk sk pass pass' ed_seed salt,
+  keypair P c se pk sk -> (c <> Ed -> length se = 32) -> truthy pass = false ->
+  exists s, secret_key P (mkkey pk (Some sk) (curve_tag c)) pass ed_seed salt = Ok s /\
+            from_encoded_key P (PS s) pass' = Ok (mkkey pk (Some sk) (curve_tag c)).
+Proof. exact export_import_plain. Qed.
+Print Assumptions C08_export_import_plain.
+
+(* Encrypted export with any non-empty passphrase p (str -> UTF-8, or bytes) and any 8-byte salt, then import with a
+   passphrase p' denoting the same bytes (the same str, or its UTF-8 bytes, or conversely): the same key. *)
+Theorem C08_export_import_encrypted : forall P, store_laws P -> forall c se pk sk p p' w salt,
+  keypair P c se pk sk -> (c <> Ed -> length se = 32) -> length salt = 8 ->
+  truthy (Some p) = true -> pw_bytes p = Some w -> pw_bytes p' = Some w ->
+  exists s, secret_key P (mkkey pk (Some sk) (curve_tag c)) (Some p) true salt = Ok s /\
+            from_encoded_key P (PS s) (Some p') = Ok (mkkey pk (Some sk) (curve_tag c)).
+Proof. exact export_import_encrypted. Qed.
+Print Assumptions C08_export_import_encrypted.
+
+(* The string manipulations of validate_mnemonic (bin / zfill(11) / slices l//33*32 and -l//33 / int(.,2) / hex / zfill /
+   unhexlify / sha256 hexdigest / int(.,16) / bin / zfill(256)) accept a sequence of word indices exactly when the
+   BIP-39 rule holds: the word count is 12, 15, 18, 21 or 24 and the 11-bit groups spell ENT || CS for some entropy of
+   16, 20, 24, 28 or 32 bytes, CS being the first ENT/32 bits of SHA-256(ENT). *)
+Theorem C08_mnemonic_iff_bip39 : forall P, (forall x, length (sha256 P x) = 32) -> forall idx,
+  Forall (fun i => (i < 2048)%N) idx ->
+  (existsb (Nat.eqb (length idx)) valid_word_counts = true /\ mnemonic_check P idx = true) <-> bip39_valid P idx.
+Proof. exact mnemonic_iff. Qed.
+Print Assumptions C08_mnemonic_iff_bip39.
+
+(* ... and validate_mnemonic as a whole (normalise + split, word list lookup, count, checksum) returns exactly when
+   every word is in the list and the indices satisfy the BIP-39 rule. *)
+Theorem C08_validate_mnemonic_iff_bip39 : forall P mn,
+  (forall x, length (sha256 P x) = 32) -> (forall w i, word_index P w = Some i -> (i < 2048)%N) ->
+  (validate_mnemonic P mn = Ok tt <->
+   exists idx, all_some (map (word_index P) (nf_split P mn)) = Some idx /\ bip39_valid P idx).
+Proof. exact validate_mnemonic_bip39. Qed.
+Print Assumptions C08_validate_mnemonic_iff_bip39.
+
+(* from_mnemonic is the key of the first 32 bytes of Mnemonic.to_seed(mnemonic, email + passphrase); with validate=True it
+   succeeds only on mnemonics validate_mnemonic accepts. *)
+Theorem C08_from_mnemonic_is_key_of_seed : forall P mn pw em v tag k,
+  from_mnemonic P mn pw em v tag = Ok k ->
+  exists seed, to_seed P (mn_string mn) (em ++ pw) = Some seed /\ key_of_seed P tag seed = Ok k /\
+               (v = true -> validate_mnemonic P (mn_string mn) = Ok tt).
+Proof. exact from_mnemonic_of_seed. Qed.
+Print Assumptions C08_from_mnemonic_is_key_of_seed.
+
+(* Determinism: the result depends only on the mnemonic text (a word list and its ' '.join give the same), on
+   email + passphrase and on the curve; no randomness oracle occurs in from_mnemonic. *)
+Theorem C08_from_mnemonic_deterministic : forall P mn mn' pw pw' em em' v v' tag,
+  mn_string mn = mn_string mn' -> em ++ pw = em' ++ pw' ->
+  (v = v' \/ validate_mnemonic P (mn_string mn) = Ok tt) ->
+  from_mnemonic P mn pw em v tag = from_mnemonic P mn' pw' em' v' tag.
+Proof. exact from_mnemonic_deterministic. Qed.
+Print Assumptions C08_from_mnemonic_deterministic.
+
+(* ---- non-vacuity: "abandon x 11 + about" (indices 0 .. 0 3) with the real SHA-256 of sixteen zero bytes ---- *)
+Definition ex_sha : otable :=
+  [("sha256"%string, [AB (repeat x00 16)], Ret [AB (hx "374708fff7719dd5979ec875d56cd2286f6d3cf7ec317a3b25632aab28ec37bb")])].
+
+Example C08_example_mnemonic :
+  mnemonic_check (prims_of ex_sha) (repeat 0%N 11 ++ [3%N]) = true /\
+  mnemonic_check (prims_of ex_sha) (repeat 0%N 11 ++ [4%N]) = false /\
+  flat_map (fixed 2 11) (repeat 0%N 11 ++ [3%N]) = bip39_bits (prims_of ex_sha) (repeat x00 16).
+Proof. vm_compute. auto. Qed.
